@@ -167,7 +167,7 @@ func (x *Exec) evalInstr(fr *Frame, st *State, in ssa.Value) (Val, bool) {
 		// 64-bit integer (a size taken from untrusted input).
 		x.oblige(st, "SAFE", "makeslice("+x.posText(in.Pos())+")", And(Le(IntLit(0), ln.T), Le(ln.T, cp.T), Le(cp.T, Term{"4611686018427387904", "Int"})), "makeslice: len or cap out of range")
 		st.assume(And(Le(IntLit(0), ln.T), Le(ln.T, cp.T)))
-		return Val{T: x.te.SliceMake(in.Type(), constArray("Int", x.te.Zero(sl.Elem())), ln.T, cp.T, False), Typ: in.Type()}, true
+		return Val{T: x.te.SliceMake(in.Type(), constArray("Int", x.te.Zero(sl.Elem())), ln.T, cp.T, False), Typ: in.Type(), Fresh: true}, true
 
 	case *ssa.MakeChan:
 		return Val{T: x.freshRef(st), Typ: in.Type()}, true
